@@ -12,6 +12,10 @@ TEXT = {
    text='Unbounded rely/guarantee proof on the real fiber_mutex_lock/trylock/unlock_internal/unlock: DFCC-enforced contracts over ghost (own, announced waiters W, hand-off in transit X) with counter = 1 - own - W; every counter write classified FAST/ANNOUNCE/FREE/HANDOFF by the step monitor; contended unlock proved to perform exactly one hand-off and exactly one wake(1); trylock proved never to park; lemma layer proves the actions inductive, inside the rely, and that INV implies mutual exclusion, no waiter on a free mutex, contended unlock is a hand-off.',
    note='Park/unpark (fiber_manager_wait_in/wake_from_mpsc_queue, fiber_yield) by contract (trusted here, enforced under C01); SC; visibility of critical-section writes is SC-trivial (memory orders not checked semantically); capacity < 2^30 waiters.',
    technique='CBMC function contracts (DFCC) on woven real code, rely/guarantee ghost counters, SAT lemmas', ref='5 C03'),
+ 'C07': dict(
+   text='Unbounded rely/guarantee proof on the six real rwlock functions: DFCC-enforced contracts, each CAS-retry loop closed by a loop contract, adversarial interference (any state word satisfying the invariant) before every access; the step monitor classifies every successful CAS as direct acquire / queue / plain release / grant-one-writer / grant-all-readers and checks its guard on the value the CAS replaced; unlock proved to issue exactly one wake on the right list with exactly the granted count; try variants proved never to queue or park; lemma layer (all 2^64 words): actions inductive, inside rely, writer exclusive, readers share, nobody queued on a free lock, release admits one writer or all readers; bit-field layout lemma.',
+   note='Park/unpark by contract (trusted here, enforced under C01); SC; 21-bit field capacity; termination of CAS retry loops not proved.',
+   technique='CBMC function+loop contracts (DFCC) on woven real code, rely/guarantee over the packed state word, SAT lemmas', ref='5 C07'),
 }
 NOT_YET = 'check not built yet at this commit (DESIGN.md section 5 describes the planned contracts)'
 checks, na = [], []
